@@ -12,11 +12,20 @@ use serde_json::json;
 use std::collections::BTreeMap;
 use std::collections::BTreeSet;
 
+thread_local! {
+  /// the packages of the current part are workspace members rooted at file:///ws/
+  static WORKSPACE: std::cell::Cell<bool> = const { std::cell::Cell::new(false) };
+}
+
+fn url_of(p: &FcPackage, path: &str) -> String {
+  if WORKSPACE.with(|w| w.get()) { format!("file:///ws{}", path) } else { FcWorld::url(p, path) }
+}
+
 fn urls(w: &FcWorld) -> Vec<String> {
   let mut v = vec![];
   for p in &w.pkgs {
     for (path, _) in &p.files {
-      v.push(FcWorld::url(p, path));
+      v.push(url_of(p, path));
     }
   }
   v.sort();
@@ -27,14 +36,14 @@ fn entry_urls(w: &FcWorld) -> Vec<String> {
   let mut v = vec![];
   for p in &w.pkgs {
     for (_, path) in &p.exports {
-      v.push(FcWorld::url(p, path.trim_start_matches('.')));
+      v.push(url_of(p, path.trim_start_matches('.')));
     }
   }
   v
 }
 
 fn pkg_prefix(p: &FcPackage) -> String {
-  FcWorld::url(p, "/")
+  url_of(p, "/")
 }
 
 fn pkg_failed(run: &FcRun, p: &FcPackage) -> bool {
@@ -43,14 +52,14 @@ fn pkg_failed(run: &FcRun, p: &FcPackage) -> bool {
 }
 
 fn pkg_entries(p: &FcPackage) -> Vec<String> {
-  p.exports.iter().map(|(_, path)| FcWorld::url(p, path.trim_start_matches('.'))).collect()
+  p.exports.iter().map(|(_, path)| url_of(p, path.trim_start_matches('.'))).collect()
 }
 
 #[allow(dead_code)]
 fn text_of(w: &FcWorld, url: &str) -> Option<String> {
   for p in &w.pkgs {
     for (path, t) in &p.files {
-      if FcWorld::url(p, path) == url {
+      if url_of(p, path) == url {
         return Some(t.clone());
       }
     }
@@ -122,7 +131,7 @@ pub fn run(tier: &str, seed: u64) -> Report {
     emitted modules, their text, dependencies and source maps must be identical; diagnostics must sit on every entrypoint); cache-less \
     runs repeated (determinism); all-or-nothing per package; recorded dependencies = dependencies the emitted text declares; the Lean model \
     of the package / cache state machine predicts the placement of results without a cache, the cache entry, and what a warm read returns; \
-    the repository's five cache spec packages run the same history; non-trivial = distinct (outcome, edit kind, cache state) classes"
+    the repository's five cache spec packages run the same history; the same packages as WORKSPACE MEMBERS (file: URLs, diagnostics collected over the whole package, 0-3 injected slow types): cache-less, cold and warm runs, statement oracle and model correspondence in collect-all mode; non-trivial = distinct (outcome, edit kind, cache state) classes"
     .into();
   crate::build::quiet_panics();
   let mut rng = Rng::new(seed ^ 0xC12);
@@ -251,8 +260,88 @@ pub fn run(tier: &str, seed: u64) -> Report {
       report.sample(replay1);
     }
   }
+  workspace_part(&mut report, &mut batch, &mut rng, if tier == "thorough" { 1500 } else { 150 });
   batch.finish(&mut report, "C12");
   report
+}
+
+/// workspace members: diagnostics are collected over the whole package (no stop at the first one)
+fn workspace_part(report: &mut Report, batch: &mut Batch, rng: &mut Rng, n: usize) {
+  WORKSPACE.with(|w| w.set(true));
+  for i in 0..n {
+    let mut pr = rng.fork();
+    let mut pkg = gen_pkg(&mut pr, i);
+    for _ in 0..(i % 4) {
+      inject_bad(&mut pr, &mut pkg);
+    }
+    let w0 = world_of(&pkg);
+    let replay = json!({"workspace_member": true, "world": w0.describe()});
+    batch.descs.push(replay.clone());
+    report.evaluations += 1;
+    let all = urls(&w0);
+    let r0 = run_fast_check_workspace(&w0, None);
+    if !r0.graph_errors.is_empty() {
+      report.fail("oracle", "generated-package-does-not-build", r0.graph_errors.join(" | "), replay.clone());
+      continue;
+    }
+    if run_fast_check_workspace(&w0, None).slots != r0.slots {
+      report.fail("oracle", "repeated-run-differs", "two cache-less runs on the same workspace member differ".into(), replay.clone());
+    }
+    statement(report, &w0, &r0, &r0, false, "workspace member, cache-less run", &replay);
+    recorded_deps(report, &r0, &replay);
+    let cache = MemCache::default();
+    let r1 = run_fast_check_workspace(&w0, Some(&cache));
+    if r1.slots != r0.slots {
+      report.fail("oracle", "cold-cache-run-differs-from-cacheless-run", format!("workspace member: {}", same_outputs(&r0, &r1).unwrap_or("diagnostics differ".into())), replay.clone());
+    }
+    let stored = snapshot(&cache);
+    let p = &w0.pkgs[0];
+    let idx = |u: &str| all.iter().position(|x| x == u).unwrap();
+    if let Some(items) = stored.first() {
+      // the modules named by the diagnostics, in order, each once
+      let mut diag_specs: Vec<usize> = vec![];
+      if let Some(FcSlot::Diagnostics(ds)) = pkg_entries(p).first().and_then(|e| r1.slots.get(e)) {
+        for d in ds {
+          if let Some(i) = d.split(": ").nth(1).and_then(|s| all.iter().position(|x| x == s)) {
+            if !diag_specs.contains(&i) {
+              diag_specs.push(i);
+            }
+          }
+        }
+      }
+      // listed before the first failing module: transformed fine
+      let mut mods: Vec<String> = vec![];
+      let mut seen: BTreeSet<usize> = BTreeSet::new();
+      for (u, _, _) in items {
+        let i = idx(u);
+        if !diag_specs.contains(&i) && seen.insert(i) {
+          mods.push(format!("({} {} 0)", i, i + 100));
+        }
+      }
+      for i in &diag_specs {
+        mods.push(format!("({} {} 1)", i, i + 100));
+      }
+      let mut imp_items: Vec<String> = vec![];
+      for (u, info, _) in items {
+        let t = format!("{}:{}:{}", if *info { "info" } else { "diag" }, idx(u), idx(u) + 100);
+        if !imp_items.contains(&t) {
+          imp_items.push(t);
+        }
+      }
+      let ent: Vec<String> = pkg_entries(p).iter().map(|e| idx(e).to_string()).collect();
+      batch.push(
+        format!("(fc-uncached 0 (entries {}) (mods {}))", ent.join(" "), mods.join(" ")),
+        format!("{} | {}", result_tokens(&r1, &all), imp_items.join(" ")),
+        true,
+      );
+      report.nontrivial.insert(format!("workspace/diag-modules-{}/listed-{}", diag_specs.len().min(4), items.len().min(6)));
+      report.count(&format!("workspace:modules-with-diagnostics:{}", diag_specs.len().min(4)));
+    }
+    let r2 = run_fast_check_workspace(&w0, Some(&cache));
+    statement(report, &w0, &r0, &r2, true, "workspace member, warm run", &replay);
+    warm_model(batch, &w0, &r2, &stored, &all);
+  }
+  WORKSPACE.with(|w| w.set(false));
 }
 
 type Stored = Vec<Vec<(String, bool, u64)>>;
@@ -350,7 +439,7 @@ fn warm_model(batch: &mut Batch, w: &FcWorld, warm: &FcRun, stored: &Stored, all
 /// one edit of one source text
 fn edit(rng: &mut Rng, w: &FcWorld, kind: &str, r0: &FcRun) -> Option<FcWorld> {
   let mut w1 = w.clone();
-  let in_api = |p: &FcPackage, path: &str| matches!(r0.slots.get(&FcWorld::url(p, path)), Some(FcSlot::Module { .. }) | Some(FcSlot::Diagnostics(_)));
+  let in_api = |p: &FcPackage, path: &str| matches!(r0.slots.get(&url_of(p, path)), Some(FcSlot::Module { .. }) | Some(FcSlot::Diagnostics(_)));
   let pi = rng.below(w1.pkgs.len());
   let p = w1.pkgs[pi].clone();
   let cand: Vec<usize> = (0..p.files.len())
